@@ -34,6 +34,21 @@ def gen_cases(tier, seed):
     for _ in range(n):
         h, tags = histgen.gen_history(rnd, m, invs, p_stale=0.45)
         yield h.case(5000, 'random history')
+    # the transport fails after it has written the frame (every error class, both specific_send signatures): the frame is
+    # on the wire once, the error reaches the caller, the next call is unaffected
+    for inv in invs:
+        for code in (23, 8, 1, 4, 26, 22, 20, 24):
+            cfgv = list(cl.DEFAULT_CFG)
+            for s, v in inv.cfg.items():
+                cfgv[s] = v
+            h = cl.H(cfgv).call_send_fault(inv.callid, inv.args, inv.blobs, code)
+            histgen.add_call(h, rnd, inv, kind='positive')
+            yield h.case(5000, 'transport fault after writing %s' % inv.name)
+    for opened in (1, 0):
+        for legacy in (0, 1):
+            for code in (0, 23, 8, 1, 4, 26, 22, 20, 24):
+                for payload in (b'\x3e\x00', b'', bytes(range(40))):
+                    yield Case(1603, [opened, legacy, code], [payload], 'BaseConnection.send')
     yield Case(5015, [0], [], 'client context manager, normal exit')
     yield Case(5015, [1], [], 'client context manager, exit by exception')
 
@@ -55,7 +70,52 @@ def ctx_manager(raises):
     return [conn.open_calls, conn.close_calls, 1 if opened_inside else 0, 1 if conn.is_open() else 0]
 
 
+def base_send(opened, legacy, code, payload):
+    from udsoncan.connections import BaseConnection
+    from harness.core import enc_bytes, err_code
+    written = []
+    fault = cl.SEND_FAULTS[code] if code else None
+
+    def body(p):
+        written.append(bytes(p))
+        if fault is not None:
+            raise fault('injected transport fault after the frame was written')
+
+    class Stub(BaseConnection):
+        def open(self):
+            return self
+
+        def close(self):
+            pass
+
+        def is_open(self):
+            return bool(opened)
+
+        def empty_rxqueue(self):
+            pass
+
+        def specific_wait_frame(self, timeout=2):
+            return None
+
+    class Legacy(Stub):
+        def specific_send(self, payload):
+            body(payload)
+
+    class Modern(Stub):
+        def specific_send(self, payload, timeout=None):
+            body(payload)
+    conn = (Legacy if legacy else Modern)('verif')
+    try:
+        conn.send(payload)
+        err = 0
+    except Exception as e:
+        err = err_code(e)
+    return [len(written)] + [x for w in written for x in enc_bytes(w)] + [err]
+
+
 def impl(c):
+    if c.entry == 1603:
+        return base_send(c.ints[0], c.ints[1], c.ints[2], c.blobs[0])
     if c.entry == 5015:
         return ctx_manager(c.ints[0] == 1)
     return cl.run_history_case(c)
@@ -70,8 +130,18 @@ def oracle(c, r):
         if r != [1, 1, 1, 0]:
             return ('ctx-close', 'with Client(...) : open calls, close calls, open inside, open after = %r' % r)
         return None
+    if c.entry == 1603:
+        opened, legacy, code = c.ints
+        n = r[0]
+        if opened and n != 1:
+            return ('transport-writes', 'BaseConnection.send handed the payload to specific_send %d times' % n)
+        if not opened and n != 0:
+            return ('transport-writes', 'a closed connection wrote %d frames' % n)
+        if opened and r[-1] != code:
+            return ('transport-error-lost', 'specific_send raised error class %d, the caller saw %d' % (code, r[-1]))
+        return None
     cfgv, ops = cl.case_ops(c)
-    calls, final = cl.parse_calls(r, histgen.ncalls(c))
+    calls, final = cl.parse_calls(r, len([o for o in ops if o[0] in ('call', 'call_send_fault')]))
     cur = list(cfgv)
     i = 0
     now = 0
@@ -90,6 +160,16 @@ def oracle(c, r):
             ov = True
         elif o[0] == 'ov_exit':
             ov = False
+        elif o[0] == 'call_send_fault':
+            d = calls[i]
+            i += 1
+            kinds = [e[0] for e in d['events']]
+            if 'S' in kinds:
+                if kinds.count('S') != 1 or kinds[-1] != 'S':
+                    return ('retransmission-after-fault', 'transport fault after writing: events %r' % kinds)
+                if d['kind'] != 'raised' or d['err'] != o[4]:
+                    return ('transport-error-lost', 'transport raised error class %d, the call ended %s %r' % (o[4], d['kind'], d['err']))
+            now = d['end']
         elif o[0] == 'call':
             d = calls[i]
             i += 1
@@ -139,7 +219,7 @@ def oracle(c, r):
 
 
 def nontrivial(c, r):
-    if c.entry == 5015:
+    if c.entry in (5015, 1603):
         return True
     prev_failed = False
     for o in cl.case_ops(c)[1]:
@@ -151,6 +231,8 @@ def nontrivial(c, r):
 
 
 def describe(c):
+    if c.entry == 1603:
+        return 'BaseConnection.send: opened=%d legacy specific_send signature=%d transport error class=%d payload=%s' % (tuple(c.ints) + (c.blobs[0].hex(),))
     if c.entry == 5015:
         return 'with Client(conn): body raises=%r' % c.ints
     return 'cfg=%r ops=%r' % cl.case_ops(c)
